@@ -639,6 +639,13 @@ func (fr *frame) execInstr(ins ssa.Instruction, st *State, env map[ssa.Value]Val
 		pt := types.Unalias(x.X.Type()).Underlying().(*types.Pointer)
 		si := reg.structInfoOf(pt.Elem())
 		if si == nil {
+			if key, vsort, ftyp, ok := reg.opaqueField(pt.Elem(), x.Field); ok && base.ip == nil {
+				// a field of a struct of another module that is kept opaque (collections): its own heap, keyed
+				// by the object, so that the code and the contracts read the same value
+				safety("nil-deref", "opaque."+key, x.Pos(), "(not (= "+base.t+" 0))")
+				env[x] = Val{ip: &IPtr{root: rootField, heap: key, vsort: vsort, ref: base.t, rootT: ftyp}}
+				return alive
+			}
 			vc.unsupported[fmt.Sprintf("field address in opaque struct %s at %s", pt.Elem(), vc.pos(x.Pos()))] = true
 			env[x] = Val{ip: &IPtr{root: rootCell, heap: "C!opaque", vsort: reg.sortOf(x.Type().(*types.Pointer).Elem()), ref: vc.fresh("opq", sortInt), rootT: x.Type().(*types.Pointer).Elem()}}
 			return alive
